@@ -105,6 +105,7 @@ type Task struct {
 	calls   map[string]int // per-method call counter (fault site addressing)
 	ord     int            // total fallible seam calls so far
 	held    []string       // database locks held, "srv|id", in acquisition order
+	heldBy  map[string]string // held key -> library function that took it
 	fn      func()
 	// outcome of an entry call
 	Handled  bool
